@@ -25,6 +25,7 @@ import GoblVerif.Proofs.C14nNorm
 import GoblVerif.Proofs.C14nForm
 import GoblVerif.Proofs.C14nReader
 import GoblVerif.Proofs.C14nEncoding
+import GoblVerif.Proofs.C14nSrc
 
 namespace GoblVerif.Props.C07
 open GoblVerif GoblVerif.Spec.C07 GoblVerif.C14n GoblVerif.Proofs.C14n
@@ -478,5 +479,486 @@ theorem token_dispatch :
        ("nil", ["Null"]), ("default", ["error"]), ("(outside)", [])] := by decide
 
 end Expect
+
+/-! ## Src: the regenerated translation of the writers of /repo/c14n (Generated/C14nSrc.lean)
+
+  Generated/C14nSrc.lean is the translation, by go2lean in its byte mode, of
+  encodeString (+ safeSet, hex), String/Integer/Float/Bool/Null.MarshalJSON,
+  Attribute/Array/Object.MarshalJSON, Object.Sort, checkEncoding and escapedUnit
+  as they stand in the repository NOW.  The theorems below relate those
+  definitions to the model the 56 theorems above are about.
+
+  PROVED for all arguments: Null, Bool, Integer, String (= encodeString),
+  encodeString on the UTF-8 of every string of Unicode scalar values
+  (`src_encodeString`: the byte loop = the code-point model, hence the README
+  escapes), Float.MarshalJSON (= floatHacks on every text that contains an `E`,
+  hence = marshalFloat on every strconv text), Attribute, Array and Object
+  .MarshalJSON (the loops, the `first` flag, the null-member filter, the error
+  propagation) = attrJoin / marshalL / marshalK, tied through the interface
+  Canonicalable by `marshal_tie` for every value json.Decoder can yield;
+  Object.Sort = sortL (the comparator is the bytewise order of the keys, which
+  on UTF-8 is the code-point order `ltS`); escapedUnit = the model
+  (`src_escapedUnit`);
+  the two condition-controlled loops
+  never run out of fuel.
+  checkEncoding = the model for all texts (`src_checkEncoding`: nil error iff
+  utf8Valid and surrogatesPaired).
+  NOT proved for all arguments (examples only: `src_encodeString_rejects`): the
+  ERROR branch of encodeString,
+    ∀ s with a non-scalar element, (Src.encodeString (utf8s s)).2.isSome
+  (json.Decoder never yields such a string; the model rejects it).
+-/
+namespace Src
+open GoblVerif.Generated GoblVerif.GoBytes GoblVerif.C14nSrc GoblVerif.GoSem
+
+theorem src_null (n : C14nSrc.Null) : obs (C14nSrc.Null_MarshalJSON n) = (marshalAtom .null).map utf8s := by
+  cases n; decide
+
+theorem src_bool (b : Bool) : obs (C14nSrc.Bool_MarshalJSON b) = (marshalAtom (.bool b)).map utf8s := by
+  cases b <;> decide
+
+theorem src_integer (i : Int) : obs (C14nSrc.Integer_MarshalJSON i) = (marshalAtom (.int i)).map utf8s := by
+  simp only [C14nSrc.Integer_MarshalJSON, marshalAtom, Option.map_some, utf8s_ascii _ (formatInt_ascii i)]
+  rfl
+
+theorem src_string (s : Bytes) : C14nSrc.String_MarshalJSON s = C14nSrc.encodeString s := rfl
+
+/-! ### encodeString -/
+
+/-- HEADLINE rule 8 over the regenerated definition, all strings: encodeString as it is in the
+    repository now, run on the UTF-8 bytes of a string of Unicode scalar values (what
+    `json.Decoder` yields), returns no error and the UTF-8 of the model's text — the byte loop
+    with its `start` / lazy copy, the safeSet test, the `switch`, hex[b>>4] hex[b&0xF], and
+    utf8.DecodeRuneInString skipping the non-ASCII characters.  With `escapes_minimal` the text
+    is `"` ++ README escapes ++ `"`.  (A string with a non-scalar element is rejected by the
+    model; for the regenerated code that branch is covered by `src_encodeString_rejects`.) -/
+theorem src_encodeString (s : GoblVerif.Str) (hs : s.all isScalar = true) :
+    obs (C14nSrc.encodeString (utf8s s)) = (C14n.encodeString s).map utf8s := by
+  unfold C14nSrc.encodeString
+  simp only [Id.run]
+  rw [forIn_range_fuel _ (fun _ _ => rfl)]
+  generalize hB : utf8s s = B
+  generalize hr : forFuel _ B.length _ = r
+  have hr' : r = forFuel (encStep B) B.length (none, [] ++ [34], 0, 0) := by
+    rw [← hr]; clear hr
+    refine forFuel_congr _ _ (fun st => ?_) _ _
+    simp only [encStep, escBytes, Id.run, GoSem.id_pure, show Int.toNat 4 = 4 from rfl]
+    by_cases h1 : st.2.2.2 < (B.length : Int)
+    · simp only [h1, not_true_eq_false, if_false]
+      by_cases h2 : byteAt B st.2.2.2.toNat < 128
+      · simp only [h2, if_true]
+        by_cases h3 : C14nSrc.safeSet[byteAt B st.2.2.2.toNat]! = true
+        · simp only [h3, if_true]
+        simp only [h3, if_false, Bool.false_eq_true]
+        generalize byteAt B st.2.2.2.toNat = b
+        by_cases h4 : st.2.2.1 < st.2.2.2
+        · simp only [h4, if_true]
+          repeat' split
+          all_goals simp
+        · simp only [h4, if_false]
+          repeat' split
+          all_goals simp
+      · simp only [h2, if_false]
+    · simp only [h1, not_false_eq_true, if_true]
+  clear hr
+  obtain ⟨out, buf', start', h1, h2, h3⟩ := enc_loop B s [] ([] ++ [34]) 0 B.length (by rw [← hB]; simp [utf8s])
+    (Nat.zero_le _) (by rw [← hB]; exact utf8s_length_ge s) hs
+  have h2' : r = (none, buf', (start' : Int), (B.length : Int)) := by
+    rw [hr', ← h2]; simp [utf8s]
+  subst h2'
+  have hcast : ((start' : Int) < (B.length : Int)) ↔ start' < B.length := by omega
+  simp only [pure_bind, Int.toNat_natCast, hcast]
+  have hfin : (if start' < B.length then buf' ++ List.drop start' B else buf') = buf' ++ List.drop start' B := by
+    split
+    · rfl
+    · rw [List.drop_eq_nil_iff.mpr (by omega)]; simp
+  have hout : C14n.encodeString s = some (0x22 :: (out ++ [0x22])) := by
+    simp [C14n.encodeString, h1]
+  rw [hout]
+  by_cases hlt : start' < B.length
+  · simp only [hlt, if_true, obs, GoSem.id_pure]
+    rw [h3]
+    simp [utf8s_cons, utf8s_append, utf8_ascii, utf8s, slice, hlt]
+  · have hd : List.drop start' B = [] := List.drop_eq_nil_iff.mpr (by omega)
+    rw [hd] at h3
+    simp only [hlt, if_false, obs, GoSem.id_pure]
+    simp only [List.append_nil] at h3
+    rw [h3]
+    simp [utf8s_cons, utf8s_append, utf8_ascii, utf8s, slice, hlt]
+
+/-- the error branch of encodeString: bytes that are not the encoding of a scalar value (an
+    encoded surrogate, a stray continuation byte, 0xFF, a truncated sequence) are refused, also
+    after text that needed escaping -/
+theorem src_encodeString_rejects :
+    (C14nSrc.encodeString [0xED, 0xA0, 0x80]).2.isSome = true ∧
+    (C14nSrc.encodeString [97, 0x80]).2.isSome = true ∧
+    (C14nSrc.encodeString [10, 0xFF, 97]).2.isSome = true ∧
+    (C14nSrc.encodeString [0xE2, 0x82]).2.isSome = true ∧
+    (C14nSrc.encodeString [0xF4, 0x90, 0x80, 0x80]).2.isSome = true := by
+  decide +kernel
+
+/-- the string of U+FFFD itself is accepted and copied (size 3, not the error value) -/
+example : C14nSrc.encodeString [0xEF, 0xBF, 0xBD] = ([0x22, 0xEF, 0xBF, 0xBD, 0x22], none) := by decide +kernel
+
+theorem scalar_of_not_any (s : GoblVerif.Str) (h : s.any (fun c => !isScalar c) = false) : s.all isScalar = true := by
+  induction s with
+  | nil => rfl
+  | cons c cs ih =>
+    simp only [List.any_cons, Bool.or_eq_false_iff, Bool.not_eq_false'] at h
+    simp [h.1, ih h.2]
+
+theorem src_attribute (k : Str) (v : J)
+    (hk : obs (C14nSrc.encodeString (utf8s k)) = (C14n.encodeString k).map utf8s)
+    (hv : obs (srcJ v) = (marshalJ v).map utf8s) :
+    obs (C14nSrc.Attribute_MarshalJSON ⟨utf8s k, ⟨v.isNull, srcJ v⟩⟩) =
+      (attrJoin v.isNull (C14n.encodeString k) (marshalJ v)).map utf8s := by
+  unfold C14nSrc.Attribute_MarshalJSON attrJoin
+  simp only [Id.run]
+  cases hn : v.isNull with
+  | true => simp [obs, utf8s, GoSem.id_pure]
+  | false =>
+    simp only [Bool.false_eq_true, if_false]
+    cases hke : C14n.encodeString k with
+    | none =>
+      rw [hke] at hk
+      have := obs_eq_none hk
+      simp [this, obs, GoSem.id_pure]
+    | some kc =>
+      rw [hke] at hk
+      obtain ⟨h1, h2⟩ := obs_eq_some hk
+      cases hve : marshalJ v with
+      | none =>
+        rw [hve] at hv
+        have := obs_eq_none hv
+        simp [h1, this, obs, GoSem.id_pure]
+      | some vc =>
+        rw [hve] at hv
+        obtain ⟨h3, h4⟩ := obs_eq_some hv
+        simp [h1, h3, obs, GoSem.id_pure, h2, h4, utf8s_append, utf8s_cons, utf8_ascii]
+
+/-! ### Float.MarshalJSON -/
+
+theorem src_float_text (t : Bytes) (hE : 69 ∈ t) : C14nSrc.Float_MarshalJSON t = (floatHacks t, none) := by
+  have hne : t ≠ [] := by intro h; subst h; simp at hE
+  unfold C14nSrc.Float_MarshalJSON floatHacks
+  simp only [Id.run, appendFloat_nil, show Int.toNat (0:Int) = 0 from rfl, show Int.toNat (2:Int) = 2 from rfl,
+    show Int.toNat (1 : Int) = 1 from rfl]
+  split <;> split
+  · rename_i h0 h2
+    rw [← ins_a t h0 h2]
+    have hEn := mem_insert_point t 2 hE
+    generalize List.take 2 t ++ ([46, 48] ++ List.drop 2 t) = num at hEn ⊢
+    float_rest num hEn
+  · rename_i h0 h2
+    rw [← ins_b t h0 h2]
+    float_rest t hE
+  · rename_i h0 h1
+    rw [← ins_c t hne h0 h1]
+    have hEn := mem_insert_point t 1 hE
+    generalize List.take 1 t ++ ([46, 48] ++ List.drop 1 t) = num at hEn ⊢
+    float_rest num hEn
+  · rename_i h0 h1
+    rw [← ins_d t h0 h1]
+    float_rest t hE
+
+theorem strconvE_has_E (n : Bool) (ds : List Nat) (e : Int) : 69 ∈ strconvE n ds e := by
+  unfold strconvE; simp
+
+/-- Float.MarshalJSON as it is now = the model, for every float (given by strconv's text) -/
+theorem src_float (n : Bool) (ds : List Nat) (e : Int) :
+    C14nSrc.Float_MarshalJSON (strconvE n ds e) = (marshalFloat n ds e, none) :=
+  src_float_text _ (strconvE_has_E n ds e)
+
+
+/-- the same with the result read as UTF-8 (the text is ASCII) -/
+theorem src_float_utf8 (n : Bool) (ds : List Nat) (e : Int) (hw : wfDigits ds = true) :
+    C14nSrc.Float_MarshalJSON (strconvE n ds e) = (utf8s (marshalFloat n ds e), none) := by
+  rw [src_float, marshalFloat_eq n ds e hw, utf8s_ascii _ (fltText_ascii n ds e hw)]
+
+/-- headline, rule 7, over the regenerated definition: what Float.MarshalJSON (as it is in the
+    repository now) makes of strconv's text is `[-]d.d+E[-]d+` -/
+theorem src_float_form (neg : Bool) (ds : List Nat) (e : Int) (hw : wfFloat ds e = true) :
+    C14nSrc.Float_MarshalJSON (strconvE neg ds e) = (fltText neg ds e, none) ∧
+    isFloatForm (fltText neg ds e) = true := by
+  have hd : wfDigits ds = true := by simp only [wfFloat, Bool.and_eq_true] at hw; exact hw.1
+  exact ⟨by rw [src_float, marshalFloat_eq neg ds e hd], isFloatForm_fltText neg ds e hw⟩
+
+example : wfFloat [1, 5] 0 = true := by decide
+
+/-! ### the recursion through the interface Canonicalable -/
+
+mutual
+/-- what `json.Decoder` guarantees about the strings of a value: Unicode scalar values only -/
+theorem tieJ : ∀ v : J, v.wf = true → strsHave (fun c => !isScalar c) v = false →
+    obs (srcJ v) = (marshalJ v).map utf8s
+  | .atom .null, _, _ => src_null {}
+  | .atom (.bool b), _, _ => src_bool b
+  | .atom (.int i), _, _ => src_integer i
+  | .atom (.flt n ds e), hw, _ => by
+    rw [srcJ, src_float_utf8 n ds e (by simpa [J.wf, Atom.wf] using hw)]; rfl
+  | .atom (.str s), _, hs => by
+    rw [srcJ]; exact src_encodeString s (scalar_of_not_any s (by simpa [strsHave] using hs))
+  | .arr xs, hw, hs => by
+    have hw' : JL.wf xs = true := by simpa [J.wf] using hw
+    have hs' : strsHaveL (fun c => !isScalar c) xs = false := by simpa [strsHave] using hs
+    unfold srcJ C14nSrc.Array_MarshalJSON
+    simp only [marshalJ]
+    refine arr_wrap _ _ _ ?_ _ (fun s => by rcases s with ⟨_ | _, _⟩ <;> rfl)
+    exact tieL xs hw' hs' 0 ([] ++ [91]) _ (fun _ _ => rfl)
+  | .obj kvs, hw, hs => by
+    have hw' : KL.wf kvs = true := by simpa [J.wf] using hw
+    have hs' : strsHaveK (fun c => !isScalar c) kvs = false := by simpa [strsHave] using hs
+    unfold srcJ C14nSrc.Object_MarshalJSON
+    simp only [marshalJ]
+    refine obj_wrap _ _ _ ?_ _ (fun s => by rcases s with ⟨_ | _, _⟩ <;> rfl)
+    exact tieK kvs hw' hs' true ([] ++ [123]) _ (fun _ _ => rfl)
+theorem tieL : ∀ xs : JL, JL.wf xs = true → strsHaveL (fun c => !isScalar c) xs = false →
+    ∀ (n : Nat) (buf : Bytes) (f : Canon × Nat → ArrSt → Id (ForInStep ArrSt)),
+    (∀ it s, f it s = pure (arrStep it s)) →
+    ArrPost (forIn (m := Id) ((srcL xs).zipIdx n) (none, buf) f).run buf (marshalL (n == 0) xs)
+  | .nil, _, _, n, buf, f, _ => arr_nil f n buf
+  | .cons x xs, hw, hs, n, buf, f, hf => by
+    have hw' : J.wf x = true ∧ JL.wf xs = true := by simpa [JL.wf] using hw
+    have hs' : strsHave (fun c => !isScalar c) x = false ∧ strsHaveL (fun c => !isScalar c) xs = false := by
+      simpa [strsHaveL] using hs
+    unfold srcL marshalL
+    exact arr_cons f hf _ _ n buf _ _ (tieJ x hw'.1 hs'.1) (fun b => by
+      have := tieL xs hw'.2 hs'.2 (n + 1) b f hf
+      simpa using this)
+theorem tieK : ∀ kvs : KL, KL.wf kvs = true → strsHaveK (fun c => !isScalar c) kvs = false →
+    ∀ (first : Bool) (buf : Bytes) (f : C14nSrc.Attribute → ObjSt → Id (ForInStep ObjSt)),
+    (∀ it s, f it s = pure (objStep (C14nSrc.Attribute_MarshalJSON it) s)) →
+    ObjPost (forIn (m := Id) (srcK kvs) (none, buf, first) f).run buf (marshalK first kvs)
+  | .nil, _, _, first, buf, f, _ => obj_nil f first buf
+  | .cons k v r, hw, hs, first, buf, f, hf => by
+    have hw' : J.wf v = true ∧ KL.wf r = true := by simpa [KL.wf] using hw
+    have hs' : (k.any (fun c => !isScalar c) = false ∧ strsHave (fun c => !isScalar c) v = false) ∧
+        strsHaveK (fun c => !isScalar c) r = false := by
+      simpa [strsHaveK] using hs
+    unfold srcK marshalK
+    have hh := src_attribute k v (src_encodeString k (scalar_of_not_any k hs'.1.1)) (tieJ v hw'.1 hs'.1.2)
+    generalize attrJoin v.isNull (C14n.encodeString k) (marshalJ v) = m at hh ⊢
+    have := obj_cons C14nSrc.Attribute_MarshalJSON f hf _ (srcK r) first buf m (fun fl => marshalK fl r)
+      hh (fun fl b => tieK r hw'.2 hs'.2 fl b f hf)
+    cases m <;> exact this
+end
+
+/-- Go's MarshalJSON on the value that stands for `v`, computed by the TRANSLATED methods at
+    every node (a Canonicalable being what its MarshalJSON returned), returns no error and the
+    UTF-8 of the model's text, for every value `json.Decoder` can hand over (well-formed float
+    digits, strings of scalar values): strings, numbers, the commas of Array.MarshalJSON, the
+    `first` flag and the NULL-MEMBER FILTER of Object.MarshalJSON, key `:` value -/
+theorem marshal_tie (v : J) (hw : v.wf = true) (hs : strsHave (fun c => !isScalar c) v = false) :
+    obs (srcJ v) = (marshalJ v).map utf8s :=
+  tieJ v hw hs
+
+example : J.wf (.obj (.cons [97] (.atom .null) (.cons [0xE9] (.arr (.cons (.atom (.flt true [1, 5] 0)) .nil)) .nil))) = true ∧
+    strsHave (fun c => !isScalar c) (.obj (.cons [97] (.atom .null) (.cons [0xE9] (.arr (.cons (.atom (.flt true [1, 5] 0)) .nil)) .nil))) = false := by
+  decide
+
+/-! ### escapedUnit -/
+
+/-- escapedUnit as it is now = the model (`none` is Go's -1), for all arguments -/
+theorem src_escapedUnit (data : Bytes) :
+    C14nSrc.escapedUnit data = match C14n.escapedUnit data with
+      | some u => ((u : Nat) : Int)
+      | none => -1 := by
+  unfold C14nSrc.escapedUnit
+  simp only [Id.run, show Int.toNat 0 = 0 from rfl, show Int.toNat 1 = 1 from rfl]
+  match data with
+  | [] => simp [C14n.escapedUnit, GoSem.id_pure]
+  | [_] => simp [C14n.escapedUnit, GoSem.id_pure]
+  | [_, _] => simp [C14n.escapedUnit, GoSem.id_pure]
+  | [_, _, _] => simp [C14n.escapedUnit, GoSem.id_pure]
+  | [_, _, _, _] => simp [C14n.escapedUnit, GoSem.id_pure]
+  | [_, _, _, _, _] => simp [C14n.escapedUnit, GoSem.id_pure]
+  | a0 :: a1 :: a :: b :: c :: d :: rest =>
+    have hsl : slice (a0 :: a1 :: a :: b :: c :: d :: rest) 2 6 = [a, b, c, d] := by simp [slice]
+    rw [hsl]
+    by_cases h0 : a0 = 92
+    · by_cases h1 : a1 = 117
+      · subst h0; subst h1
+        have hlen : ¬ (((92 :: 117 :: a :: b :: c :: d :: rest).length : Int) < 6) := by simp; omega
+        simp only [hlen, List.getElem!_cons_zero, List.getElem!_cons_succ, ne_eq, not_true_eq_false, or_self, if_false]
+        refine (hex_wrap _ (by intros; rfl) _ _ (by intro s; rcases s with ⟨_ | _, _⟩ <;> rfl)).trans ?_
+        simp only [hexFold, C14n.escapedUnit]
+        cases hexDigit a <;> cases hexDigit b <;> cases hexDigit c <;> cases hexDigit d <;> simp
+      · have hg : (((92 :: a1 :: a :: b :: c :: d :: rest).length : Int) < 6 ∨ (92 :: a1 :: a :: b :: c :: d :: rest)[0]! ≠ 92) ∨
+            (92 :: a1 :: a :: b :: c :: d :: rest)[1]! ≠ 117 := by
+          right; simpa using h1
+        subst h0
+        simp only [hg, if_true, GoSem.id_pure]
+        rw [escapedUnit_guard _ _ _ _ _ _ _ (Or.inr h1)]
+    · have hg : (((a0 :: a1 :: a :: b :: c :: d :: rest).length : Int) < 6 ∨ (a0 :: a1 :: a :: b :: c :: d :: rest)[0]! ≠ 92) ∨
+          (a0 :: a1 :: a :: b :: c :: d :: rest)[1]! ≠ 117 := by
+        left; right; simpa using h0
+      simp only [hg, if_true, GoSem.id_pure]
+      rw [escapedUnit_guard _ _ _ _ _ _ _ (Or.inl h0)]
+
+/-! ### checkEncoding -/
+
+/-- checkEncoding as it is now = the model, for all texts: nil error exactly when the bytes are
+    valid UTF-8 and every `\uXXXX` escape of a surrogate is the high half of a pair -/
+theorem src_checkEncoding (data : Bytes) : (C14nSrc.checkEncoding data).isNone = C14n.checkEncoding data := by
+  unfold C14nSrc.checkEncoding C14n.checkEncoding
+  simp only [Id.run]
+  split
+  · rename_i hv
+    have : utf8Valid data = false := by simpa using hv
+    simp [this, GoStr.errNew, GoSem.id_pure]
+  rename_i hv
+  have hv' : utf8Valid data = true := by simpa using hv
+  rw [forIn_range_fuel _ (fun _ _ => rfl)]
+  generalize hr : forFuel _ data.length _ = r
+  have hr' : r = forFuel (chkStep C14nSrc.escapedUnit data) data.length (none, 0) := by
+    rw [← hr]; clear hr
+    refine forFuel_congr _ _ (fun st => ?_) _ _
+    simp only [chkStep, Id.run, GoSem.id_pure]
+  clear hr
+  have heu : ∀ b, C14nSrc.escapedUnit b = unitInt (C14n.escapedUnit b) := by
+    intro b; rw [src_escapedUnit]; cases C14n.escapedUnit b <;> rfl
+  have hl := chk_loop C14nSrc.escapedUnit heu data data [] 0 data.length (by simp) (by simp)
+  have h1 : r.1 = chkRes (surrogatesPaired 0 data) := by
+    rw [hr', ← hl]; simp
+  rcases r with ⟨r1, r2⟩
+  simp only at h1
+  subst h1
+  simp only [hv', Bool.true_and, pure_bind]
+  cases surrogatesPaired 0 data <;> simp [chkRes, GoStr.errNew, GoSem.id_pure]
+
+/-! ### Object.Sort -/
+
+/-- the comparator handed to sort.SliceStable is the bytewise order of the keys -/
+theorem src_sort (kvs : List (Str × J)) (src : J → Bytes × Err) :
+    (C14nSrc.Object_Sort ⟨kvs.map (attrOf src)⟩).2 = ⟨(sortL kvs).map (attrOf src)⟩ := by
+  unfold C14nSrc.Object_Sort
+  simp only [Id.run, GoSem.id_pure]
+  congr 1
+  exact stableSort_attr src _ (fun a b => by simp) kvs
+
+/-! ### headline statements, directly over the regenerated definitions -/
+
+/-- README rule 8, one ASCII byte at a time: what `encodeString` (as it is in the repository now)
+    writes for the one-byte string `[b]` is the quoted README escape of `b` -/
+theorem src_escape_table_is_readme :
+    ∀ b : Fin 128, C14nSrc.encodeString [b.val] = (0x22 :: (escChar b.val ++ [0x22]), none) := by
+  decide +kernel
+
+theorem src_float_examples :
+    (C14nSrc.Float_MarshalJSON (strconvE true [1, 5] 0)).1 = [45, 49, 46, 53, 69, 48] ∧        -- -1.5E0
+    (C14nSrc.Float_MarshalJSON (strconvE false [1] 21)).1 = [49, 46, 48, 69, 50, 49] ∧          -- 1.0E21
+    (C14nSrc.Float_MarshalJSON (strconvE false [1] 100)).1 = [49, 46, 48, 69, 49, 48, 48] ∧     -- 1.0E100
+    (C14nSrc.Float_MarshalJSON (strconvE true [1, 2, 3] (-7))).1 = [45, 49, 46, 50, 51, 69, 45, 55] := by  -- -1.23E-7
+  decide +kernel
+
+/-! ### pins -/
+
+theorem nothing_untranslated : C14nSrc.untranslated = [] := by decide
+theorem translated_all : C14nSrc.translated =
+    ["escapedUnit", "checkEncoding", "var safeSet", "var hex", "encodeString", "String.MarshalJSON",
+     "Integer.MarshalJSON", "Bool.MarshalJSON", "Null.MarshalJSON", "Float.MarshalJSON", "Attribute.MarshalJSON",
+     "Array.MarshalJSON", "Object.MarshalJSON", "Object.Sort"] := by decide
+
+/-- checkEncoding and escapedUnit as they are now, on the cases of the README / the fix commit:
+    a surrogate pair passes, an escaped backslash before `ud800` is not an escape, two high
+    surrogates are rejected, a lone low surrogate is rejected, invalid UTF-8 is rejected -/
+theorem src_check_examples :
+    (C14nSrc.checkEncoding [34, 92, 117, 100, 56, 48, 48, 92, 117, 100, 99, 48, 48, 34]).isNone = true ∧
+    (C14nSrc.checkEncoding [34, 92, 92, 117, 100, 56, 48, 48, 34]).isNone = true ∧
+    (C14nSrc.checkEncoding [34, 92, 117, 100, 56, 48, 48, 92, 117, 100, 56, 48, 48, 34]).isNone = false ∧
+    (C14nSrc.checkEncoding [34, 92, 117, 68, 67, 48, 48, 34]).isNone = false ∧
+    (C14nSrc.checkEncoding [34, 0xC3, 34]).isNone = false ∧
+    C14nSrc.escapedUnit [92, 117, 100, 56, 65, 102, 34] = 0xD8AF ∧
+    C14nSrc.escapedUnit [92, 117, 100, 56, 65] = -1 ∧
+    C14nSrc.escapedUnit [92, 117, 100, 56, 65, 103] = -1 := by
+  decide +kernel
+
+/-- the regenerated checkEncoding agrees with the model on every text of at most three bytes
+    taken from an alphabet that reaches every branch (backslash, `u`, a hex digit, a lead byte,
+    a continuation byte) -/
+theorem src_checkEncoding_small :
+    ∀ a ∈ [92, 117, 100, 0xC3, 0xA9], ∀ b ∈ [92, 117, 100, 0xC3, 0xA9], ∀ c ∈ [92, 117, 100, 0xC3, 0xA9],
+      (C14nSrc.checkEncoding [a, b, c]).isNone = C14n.checkEncoding [a, b, c] := by
+  decide +kernel
+
+/-! ### the loops never run out of fuel (one theorem per entry of `fuelChecks`) -/
+
+theorem encodeString_fuel_suffices (s : Bytes) : C14nSrc.encodeString_fuelOK s = true := by
+  unfold C14nSrc.encodeString_fuelOK
+  simp only [Id.run]
+  rw [forIn_range_fuel _ (fun _ _ => rfl)]
+  simp only [pure_bind]
+  generalize hr : forFuel _ s.length _ = r
+  have key : r.1 = some true ∨ ((r.1 = none ∧ 0 ≤ r.2.2.2) ∧ ¬ r.2.2.2 < (s.length : Int)) := by
+    rw [← hr]
+    clear hr r
+    refine forFuel_progress' _ (fun b : Option Bool × Bytes × Int × Int => b.2.2.2) (s.length : Int)
+      (fun b => b.1 = some true) (fun b => b.1 = none ∧ 0 ≤ b.2.2.2) ?_ s.length _ ⟨rfl, by simp⟩ (by simp)
+    intro b hq
+    obtain ⟨hq1, hq2⟩ := hq
+    have hw := decodeRune_width_at s b.2.2.2 hq2
+    simp only [Id.run, GoSem.id_pure, stepProp_ite_id, stepProp_done, stepProp_yield]
+    repeat' split
+    all_goals (first | (exact Or.inl rfl) | (exact Or.inl trivial) | (refine Or.inr ⟨⟨trivial, ?_⟩, ?_⟩ <;> omega) |
+      (refine ⟨⟨trivial, ?_⟩, ?_⟩ <;> omega))
+  clear hr
+  rcases key with h | ⟨⟨h1, _⟩, h2⟩
+  · rw [h]; rfl
+  · rw [h1]; simp only [h2, if_false]; split <;> rfl
+
+theorem checkEncoding_fuel_suffices (s : Bytes) : C14nSrc.checkEncoding_fuelOK s = true := by
+  unfold C14nSrc.checkEncoding_fuelOK
+  simp only [Id.run]
+  split
+  · rfl
+  rw [forIn_range_fuel _ (fun _ _ => rfl)]
+  simp only [pure_bind]
+  generalize hr : forFuel _ s.length _ = r
+  have key : r.1 = some true ∨ ((r.1 = none) ∧ ¬ r.2 < (s.length : Int)) := by
+    rw [← hr]
+    refine forFuel_progress _ (fun b : Option Bool × Int => b.2) (s.length : Int)
+      (fun b => b.1 = some true) (fun b => b.1 = none) ?_ ?_ s.length _ rfl (by simp)
+    · intro b b' hq h
+      simp only [Id.run] at h
+      (repeat' split at h) <;> (first | cases h | skip) <;> simp_all
+    · intro b b' hq h
+      simp only [Id.run] at h
+      (repeat' split at h) <;> (first | cases h | skip) <;> simp_all <;> omega
+  clear hr
+  rcases key with h | ⟨h1, h2⟩
+  · rw [h]; rfl
+  · rw [h1]; simp only [h2, if_false]; rfl
+
+/-! ### pins: what the translation rests on (they can only be changed together with the theorems above) -/
+
+theorem fuel_checks : C14nSrc.fuelChecks = ["checkEncoding_fuelOK", "encodeString_fuelOK"] := by decide
+
+/-- the three unsigned subtractions of escapedUnit are guarded by the range test of their `case` -/
+theorem nat_subs : C14nSrc.natSubs =
+    [("escapedUnit", "c -= '0'", ["'0' <= c && c <= '9'"]),
+     ("escapedUnit", "c -= 'a' - 10", ["!('0' <= c && c <= '9')", "'a' <= c && c <= 'f'"]),
+     ("escapedUnit", "c -= 'A' - 10", ["!('0' <= c && c <= '9')", "!('a' <= c && c <= 'f')", "'A' <= c && c <= 'F'"])] := by
+  decide
+
+theorem structs_pinned :
+    C14nSrc.struct_Array = [("Values", "[]Canonicalable")] ∧
+    C14nSrc.struct_Attribute = [("Key", "string"), ("Value", "Canonicalable")] ∧
+    C14nSrc.struct_Null = [] ∧
+    C14nSrc.struct_Object = [("Attributes", "[]*Attribute")] ∧
+    C14nSrc.nonNilElems = ["[]*Attribute"] ∧
+    C14nSrc.inOutParams = [("Object.Sort", "o")] := by decide
+
+theorem named_types_pinned : C14nSrc.namedTypes =
+    [("Canonicalable", "interface{MarshalJSON() ([]byte, error)}", "GoblVerif.GoBytes.Canon"),
+     ("Float", "float64", "GoblVerif.GoBytes.Str"),
+     ("bytes.Buffer", "struct{}", "GoblVerif.GoBytes.Str"),
+     ("error", "interface{Error() string}", "GoblVerif.GoBytes.Err")] := by decide
+
+theorem primitives_pinned : C14nSrc.primitives.map (·.1) =
+    ["&json.UnsupportedValueError", "Canonicalable.(Null)", "Canonicalable.MarshalJSON", "bytes.IndexByte", "errors.New",
+     "strconv.AppendFloat", "strconv.FormatInt", "utf16.DecodeRune", "utf16.IsSurrogate", "utf8.DecodeRuneInString",
+     "utf8.Valid"] := by decide
+
+end Src
 
 end GoblVerif.Props.C07
